@@ -759,9 +759,9 @@ impl<Aux> Vm<'_, Aux> {
                     )?;
                 }
                 Instruction::CloseUpvalue => {
-                    instr_execution::close_upvalues(self).map_err(|err| {
-                        payload_to_error(err, src_ptr, &self.runtime_data.call_stack)
-                    })?;
+                    instr_execution::close_upvalues(self, &program.bytecode, instr_ptr).map_err(
+                        |err| payload_to_error(err, src_ptr, &self.runtime_data.call_stack),
+                    )?;
                 }
             }
             debug!("Stack: {}", self.runtime_data.value_stack);
